@@ -68,23 +68,64 @@ func (m *Machine) setupIntrinsics() {
 	reg := func(name string, f Intrinsic) { m.intr["*."+name] = f }
 	nondet := func(bits int, signed bool, kind string) Intrinsic {
 		return func(m *Machine, a []Val) Val {
+			if m.concrete != nil {
+				v := m.concreteDraw(bits, kind)
+				return cInt(v, bits, signed)
+			}
 			return Int{Bits: bits, Signed: signed, T: m.freshDraw(bits, kind)}
 		}
 	}
-	reg("vNondetBool", func(m *Machine, a []Val) Val { return Bool{T: m.freshDraw(0, "bool")} })
+	reg("vNondetBool", func(m *Machine, a []Val) Val {
+		if m.concrete != nil {
+			return Bool{C: m.concreteDraw(1, "bool") == 1}
+		}
+		return Bool{T: m.freshDraw(0, "bool")}
+	})
+	reg("vObserve", func(m *Machine, a []Val) Val {
+		if m.concrete == nil {
+			return nil
+		}
+		var sb strings.Builder
+		switch x := a[0].(type) {
+		case Slice:
+			for _, e := range x.V {
+				i := e.(Int)
+				if i.T != nil || i.BID != 0 {
+					sb.WriteString("??")
+				} else {
+					fmt.Fprintf(&sb, "%02x", i.C&0xff)
+				}
+			}
+		}
+		m.obs = append(m.obs, sb.String())
+		return nil
+	})
 	reg("vNondetU8", nondet(8, false, "u8"))
 	reg("vNondetU32", nondet(32, false, "u32"))
 	reg("vNondetU64", nondet(64, false, "u64"))
 	reg("vNondetI32", nondet(32, true, "i32"))
 	reg("vNondetI64", nondet(64, true, "i64"))
-	reg("vNondetF32", func(m *Machine, a []Val) Val { return Float{Bits: 32, T: m.freshDraw(32, "f32")} })
-	reg("vNondetF64", func(m *Machine, a []Val) Val { return Float{Bits: 64, T: m.freshDraw(64, "f64")} })
+	reg("vNondetF32", func(m *Machine, a []Val) Val {
+		if m.concrete != nil {
+			return Float{Bits: 32, C: m.concreteDraw(32, "f32")}
+		}
+		return Float{Bits: 32, T: m.freshDraw(32, "f32")}
+	})
+	reg("vNondetF64", func(m *Machine, a []Val) Val {
+		if m.concrete != nil {
+			return Float{Bits: 64, C: m.concreteDraw(64, "f64")}
+		}
+		return Float{Bits: 64, T: m.freshDraw(64, "f64")}
+	})
 	reg("vFaultIndex", func(m *Machine, a []Val) Val {
 		return Int{Bits: 64, Signed: true, T: m.freshDraw(64, "fault")}
 	})
 	reg("vFaultFired", func(m *Machine, a []Val) Val { return nil })
 	reg("vChoose", func(m *Machine, a []Val) Val {
 		n := a[0].(Int).AsInt()
+		if n <= 1 {
+			return goInt(0) // the native twin does not consume a draw either
+		}
 		k := m.choose(n)
 		m.draws = append(m.draws, Draw{Kind: "choose", Val: uint64(k), Bits: n})
 		return goInt(k)
@@ -474,4 +515,33 @@ func (m *Machine) deepEq(x, y Val, depth int) (*Term, bool) {
 		return boolConst(y == nil), y == nil
 	}
 	panic(Unsupported{fmt.Sprintf("deepEq on %T", x)})
+}
+
+// concreteDraw: pseudo-random concrete value for the differential mode,
+// biased towards small and boundary values; recorded in the draw vector.
+func (m *Machine) concreteDraw(bits int, kind string) uint64 {
+	r := m.concrete
+	var v uint64
+	if kind == "u8" && m.opt.ConcreteU8Max > 0 {
+		v = uint64(r.Intn(m.opt.ConcreteU8Max + 1))
+		// runs of equal values matter for the RLE encoder: repeat the previous draw often
+		if n := len(m.draws); n > 0 && r.Intn(3) > 0 {
+			v = m.draws[n-1].Val
+		}
+		m.draws = append(m.draws, Draw{Kind: kind, Bits: bits, Val: v})
+		return v
+	}
+	switch p := r.Intn(10); {
+	case p < 5:
+		v = uint64(r.Intn(4))
+	case p < 7:
+		v = uint64(r.Intn(16))
+	case p < 8:
+		v = ^uint64(0) - uint64(r.Intn(3))
+	default:
+		v = r.Uint64()
+	}
+	v &= mask(bits)
+	m.draws = append(m.draws, Draw{Kind: kind, Bits: bits, Val: v})
+	return v
 }
